@@ -270,7 +270,7 @@ class EReject(Engine):
 
     # ---- clause 2 ----
     def _snap(self):
-        return {'ba': kernel.safe_bin(self.ba), 'bs': kernel.safe_bin(self.bs), 'bspos': self.bs._pos, 'arr': kernel.safe_bin(self.arr.data),
+        return {'ba': kernel.safe_bin(self.ba), 'bs': kernel.safe_bin(self.bs), 'bspos': kernel.get_pos(self.bs), 'arr': kernel.safe_bin(self.arr.data),
                 'adtype': str(self.arr.dtype), 'by': kernel.safe_bin(self.by), 'opts': list(self.R.options_tuple())}
 
     def _write(self, ev):
@@ -507,7 +507,7 @@ class EReject(Engine):
         if incs:
             self.ba = B.BitArray(bin=before['ba'])
             self.bs = B.BitStream(bin=before['bs'])
-            self.bs._pos = min(before['bspos'], len(before['bs']))
+            kernel.set_pos(self.bs, min(before['bspos'], len(before['bs'])))
             self.arr = B.Array(self.cfg.get('adtype', 'uint8'))
             self.arr.data = B.BitArray(bin=before['arr'])
             self.R.reset_options()
